@@ -13,7 +13,7 @@ Constant ids in a shape are 6 characters long (> MAXLEN), so no symbolic string 
 from __future__ import annotations
 
 from chk import c13_target as T
-from chk.c13_target import D, J, N, NI, P, PICKY, PLATE_STAR, PLATE_VAR, TP
+from chk.c13_target import D, FT, J, N, NI, P, PICKY, PLATE_STAR, PLATE_VAR, SR, TAXA, TP, TPH
 
 SHAPES = []
 
@@ -219,6 +219,103 @@ def pl_children(a, b, c):
 @shape('p', tier='thorough')
 def pl_in_dict(a, b):
     return [N(a, x=PLATE_VAR(b, lambda i: N(i)))]
+
+
+# ---------------------------------------------------------------- self-registering classes (clause 's')
+# C13S puts itself into the registry under its own id after its `pre` child and before `x` / `children`
+# (the pattern of the real FlexibleTimeTreeModel): with distinct ids the load succeeds, the registry entry is
+# the returned object, a (transitively) nested reference to its id is that same instance; a nested object
+# DEFINED with its id is rejected; a reference from `pre` (before the announcement) is dangling.
+@shape('s')
+def self_ref(a, r):
+    return [SR(a, x=r)]
+
+
+@shape('s')
+def self_plain(a, b, r):
+    return [SR(a), N(b, x=r)]
+
+
+@shape('s')
+def self_after(a, b):
+    return [N(a), SR(b, x=N('cccccc'))]
+
+
+@shape('s')
+def self_child(a, b, r):
+    return [SR(a, x=N(b, x=r))]
+
+
+@shape('s')
+def self_pre(a, b, r):
+    return [SR(a, pre=N(b), x=r)]
+
+
+@shape('s')
+def self_pre_ref(a, b, r):
+    return [N(a), SR(b, pre=r, x=N('cccccc'))]
+
+
+@shape('s', quick_codes=('0123', '0120', '0121', '0122', '0012', '0100', '0110'))
+def self_list(a, b, c, r):
+    return [SR(a, children=[r, N(b), r]), N(c, x=r)]
+
+
+@shape('s', quick_codes=('0123', '0120', '0121', '0122', '0012', '0101', '0111'))
+def self_inner(a, b, c, r):
+    return [N(a, x=SR(b, x=r)), N(c, x=r)]
+
+
+@shape('s')
+def self_self(a, b, r):
+    return [SR(a, x=SR(b, x=r))]
+
+
+@shape('s', tier='thorough')
+def self_deep(a, b, c, r):
+    return [SR(a, x=N(b, x=N(c, x=r)))]
+
+
+@shape('s', tier='thorough')
+def self_two_refs(a, b, c, r, q):
+    return [SR(a, pre=N(b), x=N(c, x=r, children=[q]))]
+
+
+@shape('s', tier='thorough')
+def self_tp(a, b, c, r):
+    return [SR(a, x=TP(b, P(c))), TP('tttttt', r)]
+
+
+@shape('s', tier='thorough', note='comment-key-kept:self-registering')
+def self_cm(a, r, k, v):
+    return [SR(a, **{T.ckey(k): v, 'x': r})]
+
+
+@shape('s', tier='thorough', positions=("a + '0'", "a + '1'", 'r'))
+def self_plate(a, r):
+    return [PLATE_VAR(a, lambda i: SR(i, x=r))]
+
+
+# the real self-registering class: FlexibleTimeTreeModel (taxa before, internal_heights after it registers itself);
+# its node-height transform refers back to the tree model by id
+@shape('s', quick_codes=('0120', '0121', '0122', '0123', '0100', '0110', '0012', '0102'))
+def ft_back(a, b, c, r):
+    return [FT(a, TPH(b, r, P(c)))]
+
+
+@shape('s')
+def ft_heights(a, b):
+    return [FT(a, P(b))]
+
+
+@shape('s')
+def ft_taxa(a, b):
+    return [FT(a, P('hhhhhh'), taxa=TAXA(b))]
+
+
+@shape('s', tier='thorough')
+def ft_later(a, b, r):
+    return [FT(a, P('hhhhhh')), N(b, x=r)]
 
 
 # ---------------------------------------------------------------- from_json_safe error wrapping
